@@ -163,16 +163,18 @@ IStale ==
         /\ ~(\E m \in merges : SeqToSet(m.order) = ModelSids \ ObsSids)
   /\ UNCHANGED <<dq, unc, com, merges, meta, fin, commitOp, reconcile, metaCom>> /\ Frame
 
-INext ==
+IStep ==
   /\ l <= Len(Rec) /\ l' = l + 1
   /\ (IReset \/ IFresh \/ IDel \/ ISegFinal \/ IRegsAdd \/ ICommitBegin \/ IRegsCommit \/ IRegsRemoveEmpty
       \/ IMergeStart \/ IReconcile \/ IRegsEndMerge \/ ICommitRet \/ IStale)
 
 IInit == Init /\ l = 1 /\ fin = <<>> /\ commitOp = 0 /\ reconcile = 0 /\ metaCom = {}
-ISpec == IInit /\ [][INext]_ivars
-
 \* C02 / C04 on the model state reached through the real run: no document twice
 INoDup == \A e1, e2 \in unc \cup com : e1.sid # e2.sid => e1.alive \cap e2.alive = {}
+\* (evaluated on the successor state inside the step: as an INVARIANT, TLC would print an error trace
+\* as long as the validated trace)
+INext == IStep /\ (IF INoDup' THEN TRUE ELSE Print(<<"INVFAIL", "INoDup", l>>, FALSE))
+ISpec == IInit /\ [][INext]_ivars
 
 Accepted ==
   IF TLCGet("stats").diameter - 1 = Len(Rec) THEN TRUE
